@@ -201,11 +201,21 @@ impl ByteCodeLambda {
     }
 }
 
+/// the two heap free lists only record the order of the calls the recycler makes on them
 #[derive(Default)]
-pub struct HeapFreeList;
+pub struct HeapFreeList {
+    pub reset_marks: u8,
+    pub recounted_after_reset: u8,
+}
 impl HeapFreeList {
-    pub fn mark_all_unreachable(&mut self) {}
-    pub fn recount(&mut self) {}
+    pub fn mark_all_unreachable(&mut self) {
+        self.reset_marks += 1;
+    }
+    pub fn recount(&mut self) {
+        if self.reset_marks > 0 {
+            self.recounted_after_reset += 1;
+        }
+    }
 }
 #[derive(Default)]
 pub struct Heap {
